@@ -203,6 +203,10 @@ func VerifC04_SetMatrix() {
 			return errInvalid
 		}
 	}
+	// (possibly with a value migration that leaves current values as they are)
+	if rt.Bool("hasmigration") {
+		o.Migrations = []MigrationFunc{func(_ *Option, v any) any { return v }}
+	}
 	prevUser := &valueCache{intVal: 1, stringVal: "p", boolVal: true, stringArrayVal: []string{"p"}}
 	prevDefault := &valueCache{intVal: 2, stringVal: "q"}
 	o.activeValue, o.activeDefaultValue = prevUser, prevDefault
